@@ -164,7 +164,7 @@ class ScipyProxy(object):
     integrate = _Integrate
 
 
-def bisect_for(pattern, case=None):
+def bisect_for(pattern, case=None, second='mirror'):
     """bisect contract; the star-pressure call additionally abandons the path when the root is not on the branches of
     `pattern' (e.g. 'RCR': px < pl and px < pr) -- each pattern has its own obligation; `case' = (iL, iR) further fixes the
     interval of each side's table that contains the root (every interval has its own obligation).
@@ -176,7 +176,7 @@ def bisect_for(pattern, case=None):
         fr = sys._getframe(1)
         ex = current()
         nstar = len(ex.notes.get('geos_star', []))
-        pat = pattern if (pattern is None or nstar == 0) else pattern[::-1]
+        pat = pattern if (pattern is None or nstar == 0 or second == 'same') else pattern[::-1]
         if 'shock_jump' in names and pat is not None:
             side = 0 if fr.f_locals.get('sgn') == -1 else 2
             if pat[side] == 'R':
@@ -263,9 +263,9 @@ def nice_linspace(start, stop, num=50, endpoint=True, **kw):
     return out
 
 
-def shim_extra(pattern, case=None):
+def shim_extra(pattern, case=None, second='mirror'):
     return {'min': stubs.sym_min, 'max': stubs.sym_max, 'print': H.quiet_print, 'scipy': ScipyProxy,
-            'bisect': bisect_for(pattern, case), 'linspace': linspace_ordered}
+            'bisect': bisect_for(pattern, case, second), 'linspace': linspace_ordered}
 
 
 def make(mk, gl, gr, problem='igeos', n=NPTS, state=None, **kw):
